@@ -113,7 +113,15 @@ def scenarios(tier, seed):
     g = dict(a); g["start"] = "2000/01/01"; g["end"] = "2000/02/20"            # ends before the first planting date: no season
     h = S("Tomato", "Clay", seed=5, soil_spec={"type": "Clay", "kw": {"dz": [0.3, 0.3, 0.3, 0.3]}})          # all compartments >= 0.25 m, Zmax 1.0 -> needs 1.1 m: fits
     i = S("Wheat", "Clay", seed=6, soil_spec={"type": "Clay", "kw": {"dz": [0.3, 0.3, 0.3]}})               # Zmax 1.5 m needs deepening: all dz >= 0.25
-    scs += sp + [b, c, d, e, f, g, h, i]
+    # windows that end exactly on a planting day (of the same / a later year), with and without off-season
+    ends = []
+    for yrs, off in ((1, False), (2, False), (2, True), (1, True)):
+        w = S("Maize", "SandyLoam", seed=7 + yrs, plant_md=(5, 1), year=2000, seasons=yrs + 1, off_season=off)
+        w["end"] = f"{2000 + yrs}/05/01"
+        ends.append(w)
+    w = S("TomatoGDD", "Loam", seed=12, plant_md=(4, 15), year=2000, seasons=3, regime="hot"); w["end"] = "2002/04/15"; ends.append(w)
+    w = S("Wheat", "Loam", seed=13, plant_md=(10, 1), year=2000, seasons=3); w["end"] = "2002/10/01"; ends.append(w)
+    scs += sp + [b, c, d, e, f, g, h, i] + ends
     return scs
 
 
